@@ -103,3 +103,130 @@ package secp256k1
 //@   mode int
 //@   requires inv(e) && inv(element)
 //@   ensures eq [C05,C10]: result == ite(pt(e) == pt(element), 1, 0) by pt_eq_iff(fv(e.x), fv(e.y), fv(e.z), fv(element.x), fv(element.y), fv(element.z))
+
+// ---- scalars: sv(s) = canonical value in Z_n of the Montgomery limbs s.S; wfs(s) = limbs < N ----
+//@ declare bit(Int, Int) Int
+//@ declare hi(Int, Int) Int
+//@ lemma bit_def(v, i) {lean: Secp.bit_def}: bit(v, i) == (v / pow2(i)) % 2
+//@ lemma bit_limb(lo, nk, hi, k, c) {lean: Secp.bit_limb}: imp(0 <= lo && lo < pow2(64*k) && 0 <= nk && nk < pow2(64) && 0 <= hi && 0 <= c && c < 64, bit(lo + nk * pow2(64*k) + hi * pow2(64*k+64), 64*k + c) == (nk / pow2(c)) % 2)
+//@ lemma hi_step(v, i) {lean: Secp.hi_step}: imp(0 <= i, hi(v, i) == 2 * hi(v, i + 1) + bit(v, i) && 0 <= bit(v, i) && bit(v, i) <= 1)
+//@ lemma hi_top(v) {lean: Secp.hi_top}: imp(0 <= v && v < pow2(256), hi(v, 256) == 0)
+//@ lemma hi_zero(v) {lean: Secp.hi_zero}: hi(v, 0) == v
+//@ lemma smul_add(a, b, g) {lean: add_smul}: gadd(smul(a, g), smul(b, g)) == smul(a + b, g)
+//@ lemma smul_zero(g) {lean: zero_smul}: smul(0, g) == gzero()
+//@ lemma smul_one(g) {lean: one_smul}: smul(1, g) == g
+
+//@ func Scalar.Zero
+//@   mode int
+//@   ensures v [C06]: wfs(s) && sv(s) == Fn(0)
+//@   modifies *s
+//@   returns s
+
+//@ func Scalar.One
+//@   mode int
+//@   ensures v [C06]: wfs(s) && sv(s) == Fn(1)
+//@   modifies *s
+//@   returns s
+
+//@ func Scalar.MinusOne
+//@   mode int
+//@   ensures v [C06]: wfs(s) && sv(s) == Fn(N - 1)
+//@   modifies *s
+//@   returns s
+
+//@ func Scalar.Add
+//@   mode int
+//@   nilable t
+//@   requires wfs(s) && (isnil(t) || wfs(t))
+//@   ensures v [C06,C10]: imp(!isnil(t), wfs(s) && sv(s) == nadd(old(sv(s)), old(sv(t))))
+//@   ensures nil [C06]: imp(isnil(t), unchanged(s))
+//@   modifies *s
+//@   returns s
+
+//@ func Scalar.Subtract
+//@   mode int
+//@   nilable t
+//@   requires wfs(s) && (isnil(t) || wfs(t))
+//@   ensures v [C06,C10]: imp(!isnil(t), wfs(s) && sv(s) == nsub(old(sv(s)), old(sv(t))))
+//@   ensures nil [C06]: imp(isnil(t), unchanged(s))
+//@   modifies *s
+//@   returns s
+
+//@ func Scalar.Multiply
+//@   mode int
+//@   nilable t
+//@   requires wfs(s) && (isnil(t) || wfs(t))
+//@   ensures v [C06,C10]: imp(!isnil(t), wfs(s) && sv(s) == nmul(old(sv(s)), old(sv(t))))
+//@   ensures nil [C06]: imp(isnil(t), wfs(s) && sv(s) == Fn(0))
+//@   modifies *s
+//@   returns s
+
+//@ func Scalar.Square
+//@   mode int
+//@   requires wfs(s)
+//@   ensures v [C06,C10]: wfs(s) && sv(s) == nmul(old(sv(s)), old(sv(s)))
+//@   modifies *s
+//@   returns s
+
+//@ func Scalar.Invert
+//@   mode int
+//@   requires wfs(s)
+//@   ensures v [C06,C10]: wfs(s) && sv(s) == ninv(old(sv(s)))
+//@   modifies *s
+//@   returns s
+
+//@ func Scalar.SetUInt64
+//@   mode int
+//@   ensures v [C06]: wfs(s) && sv(s) == nofint(i)
+//@   modifies *s
+//@   returns s
+
+//@ func Scalar.Set
+//@   mode int
+//@   nilable t
+//@   requires isnil(t) || wfs(t)
+//@   ensures v [C06,C10]: imp(!isnil(t), wfs(s) && sv(s) == old(sv(t)))
+//@   ensures nil [C06]: imp(isnil(t), wfs(s) && sv(s) == Fn(0))
+//@   modifies *s
+//@   returns s
+
+//@ func Scalar.Copy
+//@   mode int
+//@   requires wfs(s)
+//@   ensures v [C10]: wfs(result) && sv(result) == sv(s)
+//@   returns fresh
+
+//@ func Scalar.Bits
+//@   mode int
+//@   requires wfs(s)
+//@   ensures bits [C14,C01]: forall(j, 0, 256, result[j] == bit(fint(sv(s)), j)) by forall(j, 0, 256, bit_limb(evalr(n, 0, j/64), n[j/64], evalr(n, j/64+1, 4), j/64, j%64))
+
+//@ func Scalar.IsZero
+//@   mode int
+//@   requires wfs(s)
+//@   ensures z [C13]: result == (sv(s) == Fn(0))
+
+//@ func Scalar.IsOne
+//@   mode int
+//@   requires wfs(s)
+//@   ensures o [C13]: result == (sv(s) == Fn(1))
+
+//@ func Scalar.Equal
+//@   mode int
+//@   nilable t
+//@   requires wfs(s) && (isnil(t) || wfs(t))
+//@   ensures eq [C13,C10]: imp(!isnil(t), result == ite(sv(s) == sv(t), 1, 0))
+//@   ensures nil: imp(isnil(t), result == 0)
+
+//@ func Scalar.LessOrEqual
+//@   mode int
+//@   requires wfs(s) && wfs(t)
+//@   ensures le [C13]: result == ite(fint(sv(s)) <= fint(sv(t)), 1, 0)
+
+//@ func Scalar.CSelect
+//@   mode int
+//@   nilable u, v
+//@   requires (isnil(u) || wfs(u)) && (isnil(v) || wfs(v))
+//@   ensures sel [C13,C10]: imp(!isnil(u) && !isnil(v), result == 0 && wfs(s) && sv(s) == ite(cond == 0, old(sv(u)), old(sv(v))))
+//@   ensures nil [C13]: imp(isnil(u) || isnil(v), result == errParamNilScalar && unchanged(s))
+//@   modifies *s
